@@ -272,14 +272,14 @@ EXTRA7 = {
     'C01': ' Seventh round: 237255 cancels the bitmap defined for reuse whatever was built since (operator table corrected; genuine defect repaired); a decoder that compiles its templates gives the fields, labels, values and links of the plain walk or the same error (concrete compile / replay fold), keyed by the whole descriptor list and table group; every subset has its own value list at every logging level.',
     'C02': ' Seventh round: the operator table and the bitmap-definition machine of the walk the encoder shares with the decoder; an encoder that compiles its templates writes the fields of the plain walk (concrete fold); compressed columns of off-grid values are quantised value by value.',
     'C03': ' Seventh round: every value of a compressed column reads back as the nearest multiple of the element precision (off-grid columns whose minimum and distance both round down); the round trip is the same with compiled templates; the missing rule for every element class.',
-    'C04': ' Seventh round: the decoder consumes exactly the declared extent in editions 2, 3 and 4 (odd lengths included); the in-place patch of a length field sets exactly the bits of the field on a bit stream with concrete stale content (shared with C19.R2).',
+    'C04': ' Seventh round: the decoder consumes exactly the declared extent in editions 2, 3 and 4 (odd lengths included); the in-place patch of a length field sets exactly the bits of the field on a bit stream with concrete stale content (shared with C19.R2); an encoder created with its default options recomputes stale declared lengths; every edition publishes the presence flag of its optional section as a message property.',
     'C05': ' Seventh round: quantisation of off-grid compressed columns; the compressed writer stores the scaled integer of each value.',
     'C06': ' Seventh round: the values a query obtains for subset k come from the hierarchy of subset k.',
     'C07': ' Seventh round: the operator 237255 folded on the state (cancels the bitmap defined for reuse also after a later bitmap that is not for reuse; genuine defect repaired).',
-    'C08': ' Seventh round: concrete compile / replay differential (C08.R9): TemplateCompiler.process_members and process_statements are folded concretely on 30 templates and on 7 templates whose data do not fit them (more marker operators or quality values than zero bits, bitmap longer than the elements, recall without bitmap): same fields read, descriptors, values and links or the same error, for the decoder, for the encoder, for compressed data whose subsets carry different bitmaps, for a second run of the same statements, and after CompiledTemplate.to_dict -> JSON data -> loads_compiled_template.',
+    'C08': ' Seventh round: concrete compile / replay differential (C08.R9): TemplateCompiler.process_members and process_statements are folded concretely on 30 templates and on 7 templates whose data do not fit them (more marker operators or quality values than zero bits, bitmap longer than the elements, recall without bitmap): same fields read, descriptors, values and links or the same error, for the decoder, for the encoder, for compressed data whose subsets carry different bitmaps, for a second run of the same statements, after CompiledTemplate.to_dict -> JSON data -> loads_compiled_template, for a run that follows an interrupted run of the same statements, and for an encoder given one value too few.',
     'C09': ' Seventh round: the decode command folded for the eight combinations of -m / -a / -j: every message rendered once by the renderer of the requested format, nested formats only from wired data.',
     'C10': ' Seventh round: encoding the extract with compiled templates, the length back-patch and the typed reader / writer pairing (shared rules).',
-    'C11': ' Seventh round: the stream model follows scanners that slice first and search inside the slice, and decoders that locate the signature themselves; a category-11 message of any other shape is refused by the definition processor with the library error only (12 shapes folded).',
+    'C11': ' Seventh round: the stream model follows scanners that slice first and search inside the slice, and decoders that locate the signature themselves; a category-11 message of any other shape is refused by the definition processor with the library error only (12 shapes folded); the bytes of a message are taken when it is handed out (a consumer that empties them must not disturb the scan); every decoding pass of a scan gets the caller\'s options.',
     'C12': ' Seventh round: whatever shape a category-11 message has the definition processor fails with the library error only; every section parameter type is read with a sized format through the generic dispatcher.',
     'C13': ' Seventh round: a compiled template gives the same result every time it is run (second run of the same statement objects, concrete fold).',
     'C14': ' Seventh round: compiled templates are keyed by the whole descriptor list and table group.',
